@@ -6,7 +6,7 @@ namespace SF.Drv
 open SF SExp SF.Csv
 
 /-- Decode a quoted atom `"…"` into its characters. -/
-def unquote (s : String) : Option (List Char) :=
+private def unquote (s : String) : Option (List Char) :=
   match s.toList with
   | '"' :: rest =>
     let rec go : List Char → List Char → Option (List Char)
@@ -26,7 +26,7 @@ def unquote (s : String) : Option (List Char) :=
     go rest []
   | _ => none
 
-def quoteChars (l : List Char) : String :=
+private def quoteChars (l : List Char) : String :=
   let body := l.foldl (fun (acc : String) c =>
     match c with
     | '\n' => acc ++ "\\n"
@@ -37,25 +37,25 @@ def quoteChars (l : List Char) : String :=
     | c => acc.push c) ""
   "\"" ++ body ++ "\""
 
-def text? : SExp → Option (List Char)
+private def text? : SExp → Option (List Char)
   | .atom s => unquote s
   | _ => none
 
-def char? (e : SExp) : Option Char :=
+private def char? (e : SExp) : Option Char :=
   match text? e with
   | some [c] => some c
   | _ => none
 
-def texts? : SExp → Option (List (List Char))
+private def texts? : SExp → Option (List (List Char))
   | .list xs => xs.mapM text?
   | _ => none
 
-def rows? : SExp → Option (List (List (List Char)))
+private def rows? : SExp → Option (List (List (List Char)))
   | .list xs => xs.mapM texts?
   | _ => none
 
-def ofTexts (l : List (List Char)) : SExp := .list (l.map fun f => .atom (quoteChars f))
-def ofRows (l : List (List (List Char))) : SExp := .list (l.map ofTexts)
+private def ofTexts (l : List (List Char)) : SExp := .list (l.map fun f => .atom (quoteChars f))
+private def ofRows (l : List (List (List Char))) : SExp := .list (l.map ofTexts)
 
 def csvOps : List SExp → Option String
   | [.atom "csv.write", d, q, fs] => do
